@@ -201,6 +201,13 @@ def to_coq(rows, leak_rows=()):
     out.append('   and without the bump of that cell on the same path; the cell is named in brackets *)')
     out.append('Definition version_leaks : list (string * string) := [' +
                '; '.join('("%s", "%s")' % (c, m.replace('"', "'")) for c, m in leak_rows) + '].')
+    out.append('(* the facts themselves: for every public member (instantiation) the abstract states (cells written, cells bumped) in which a')
+    out.append('   NORMAL return of the function can be reached *)')
+    def sl2(l): return '[' + '; '.join('"%s"' % x for x in l) + ']'
+    out.append('Definition path_facts : list (string * string * list (list string * list string)) := [')
+    out.append(';\n'.join('  ("%s", "%s", [%s])' % (c, m.replace('"', "'"), '; '.join('(%s, %s)' % (sl2(w), sl2(b)) for w, b in sts))
+                          for c, m, sts in PATH_FACTS))
+    out.append('].')
     return '\n'.join(out) + '\n'
 
 
@@ -237,7 +244,7 @@ PATH_CFG = {
                       write_calls={'pvDestroyRaw': [0, 1], 'pvDestroyRaws': [0, 1]}),
 }
 PATH_CELLS = {'HashSet': ['version'], 'TreeSet': ['version'], 'HashMap': ['HashSet.version'], 'TreeMap': ['TreeSet.version'],
-              'HashMultiMap': ['key version', 'valueVersion'], 'DataTable': ['changeVersion', 'removeVersion']}
+              'HashMultiMap': ['HashMap.HashSet.version', 'valueVersion'], 'DataTable': ['changeVersion', 'removeVersion']}
 CLASS_SUMM = {}     # class -> member name -> set of states (union over overloads / instantiations)
 
 
@@ -267,6 +274,8 @@ class PathPass:
     def __init__(self, cls, body, names=None):
         self.cfg = PATH_CFG[cls]; self.fields = self.cfg.get('fields', {}); self.body = body
         self.summ = {i: set() for i in body}; self.names = names or {}
+        # SetExtractedItem(Set&, iter) / MapExtractedPair(Map&, iter) call set.Remove(iter, *this): the Remove overloads taking an Extracted*
+        self.extract_ids = [i for i, b in body.items() if b.get('name') == 'Remove' and 'Extracted' in b.get('type', {}).get('qualType', '')]
 
     def is_field(self, n):
         n = _strip(n)
@@ -299,6 +308,12 @@ class PathPass:
                  'SwitchStmt', 'BreakStmt', 'ContinueStmt', 'NullStmt'):
             out, R = self.stmt(n, S); self.pending_returns |= R
             return out
+        if k in ('CXXTemporaryObjectExpr', 'CXXConstructExpr') and len(inner) == 2 and \
+                re.search(r'Extracted(Item|Pair)', n.get('type', {}).get('qualType', '')) and self.extract_ids:
+            for c in inner: S = self.expr(c, S)
+            eff = set()
+            for i in self.extract_ids: eff |= self.summ[i]
+            return {s | e for s in S for e in eff} if eff else S
         if k == 'CXXMemberCallExpr' and inner:
             callee = _strip(inner[0])
             for c in inner[1:]: S = self.expr(c, S)
@@ -426,10 +441,13 @@ class PathPass:
         return self.summ
 
 
+PATH_FACTS = []     # filled by leaks(): (class, method, const?, [(written cells, bumped cells)] one per abstract state at a normal return)
+
+
 def leaks(repo, classes=None):
     """[(class, method)] public members with a normal return in a state where some cell was written and not bumped"""
     out = []
-    CLASS_SUMM.clear()
+    CLASS_SUMM.clear(); del PATH_FACTS[:]
     for cls, define in CLASSES:
         if cls not in PATH_CFG or (classes and cls not in classes and cls not in ('HashSet', 'TreeSet', 'HashMap')):
             continue
@@ -453,6 +471,10 @@ def leaks(repo, classes=None):
         CLASS_SUMM[cls] = cs
         ncells = len(PATH_CELLS[cls])
         for name, ps, i in pub:
+            sts = sorted(summ[i])
+            PATH_FACTS.append((cls, '%s(%s)%s' % (name, re.sub(r'\(lambda at [^)]*\)', 'lambda', ps), ' const' if params_of(body[i], cls)[1] else ''),
+                               [([PATH_CELLS[cls][j] for j in range(ncells) if (s >> (2 * j)) & 1],
+                                 [PATH_CELLS[cls][j] for j in range(ncells) if (s >> (2 * j + 1)) & 1]) for s in sts]))
             bad = [s for s in summ[i] if leaky(s, ncells)]
             if bad and (not classes or cls in classes):
                 cells = sorted({PATH_CELLS[cls][j] for s in bad for j in range(ncells) if (s >> (2 * j)) & 1 and not (s >> (2 * j + 1)) & 1})
